@@ -75,7 +75,7 @@ def strategy(draw, tier="quick"):
     case = {"fmt": fmt, "nf": nf, "na": na, "cell": _ck(fmt, draw(st.sampled_from([None, "ortho", "tric"]))),
             "seed": draw(st.integers(0, 2))}
     if fmt == "dcd" and case["cell"] != "tric" and draw(st.integers(0, 2)) == 0:
-        case["dcd_fixed"] = True        # fixed atoms as CHARMM / NAMD store them (later frames hold the free atoms only)
+        case["dcd_fixed"] = draw(st.sampled_from(["half", "most", "one"]))        # fixed atoms as CHARMM / NAMD store them (later frames hold the free atoms only)
     if fmt == "trr" and draw(st.booleans()):
         case["trr_vf"] = draw(st.sampled_from(["v", "f", "vf"]))       # velocity / force blocks as GROMACS writes them
     if draw(st.integers(0, 2)) == 0:
